@@ -51,8 +51,8 @@ Section Generic.
       destruct (skipn k st) as [|x r] eqn:Es.
       + assert (length (skipn k st) = 0) by (rewrite Es; reflexivity). rewrite skipn_length in *. lia.
       + simpl. f_equal. assert (Hs : skipn (S k) st = r).
-        { replace (S k) with (1 + k) by lia. rewrite <- skipn_skipn, Es. reflexivity. }
-        rewrite Hs. reflexivity.
+        { replace (S k) with (k + 1) by lia. rewrite <- (skipn_skipn' st 1 k), Es. reflexivity. }
+        exact Hs.
   Qed.
 
   Lemma g_read_update_other : forall st k b h, k < length st -> hbuf h <> k ->
@@ -77,22 +77,22 @@ Section StoreProofs.
   (* MultiNestedTensor *)
   Lemma n_new_spec : forall (st : nstore) (t : mnt A),
     let '(st', h) := n_new A st t in
-    st' = st ++ [vals t] /\ n_buf A h = length st /\ n_read st' h = Some t.
+    st' = st ++ [vals t] /\ n_buf h = length st /\ n_read st' h = Some t.
   Proof.
     intros st t. unfold n_new, g_alloc. split; [reflexivity|]. split; [reflexivity|].
     unfold RaggedStore.n_read. rewrite g_read_fresh by reflexivity. unfold n_view. cbn [n_start n_len n_nr n_nc n_offs].
-    rewrite Nat.leb_refl. rewrite tslice_all. destruct t; reflexivity.
+    cbn [Nat.add]. rewrite Nat.leb_refl. rewrite tslice_all. destruct t; reflexivity.
   Qed.
 
-  Lemma n_read_alloc : forall (st : nstore) b h, n_buf A h < length st -> n_read (st ++ [b]) h = n_read st h.
+  Lemma n_read_alloc : forall (st : nstore) b h, n_buf h < length st -> n_read (st ++ [b]) h = n_read st h.
   Proof. intros. apply g_read_alloc. assumption. Qed.
 
   (* clone: an equal container in a storage nobody else views; nothing existing changes *)
   Lemma n_clone_spec : forall (st st' : nstore) h c, n_clone A st h = Some (st', c) ->
-    n_buf A c = length st
+    n_buf c = length st
     /\ (exists b, st' = st ++ [b])
     /\ n_read st' c = (t <- n_read st h ;; mnt_clone A t)
-    /\ (forall h0, n_buf A h0 < length st -> n_read st' h0 = n_read st h0).
+    /\ (forall h0, n_buf h0 < length st -> n_read st' h0 = n_read st h0).
   Proof.
     intros st st' h c E. unfold n_clone in E.
     destruct (n_read st h) as [t|] eqn:Et; [|discriminate]. cbn [obind] in *.
@@ -105,30 +105,30 @@ Section StoreProofs.
 
   Lemma n_write_spec : forall (st st' : nstore) h new, n_write A st h new = Some st' ->
     length st' = length st
-    /\ n_buf A h < length st
-    /\ (forall k, k <> n_buf A h -> nth_error st' k = nth_error st k)
-    /\ (exists b, nth_error st (n_buf A h) = Some b /\
-                  nth_error st' (n_buf A h) =
-                  Some (firstn (n_start A h) b ++ new ++ skipn (n_start A h + n_len A h) b))
-    /\ n_read st' h = Some (MkMnt (n_nr A h) (n_nc A h) new (n_offs A h)).
+    /\ n_buf h < length st
+    /\ (forall k, k <> n_buf h -> nth_error st' k = nth_error st k)
+    /\ (exists b, nth_error st (n_buf h) = Some b /\
+                  nth_error st' (n_buf h) =
+                  Some (firstn (n_start h) b ++ new ++ skipn (n_start h + n_len h) b))
+    /\ n_read st' h = Some (MkMnt (n_nr h) (n_nc h) new (n_offs h)).
   Proof.
     intros st st' h new E. unfold n_write in E.
-    destruct (nth_error st (n_buf A h)) as [b|] eqn:Eb; [|discriminate]. cbn [obind] in E.
-    destruct ((length new =? n_len A h) && (n_start A h + n_len A h <=? length b)) eqn:Ec; [|discriminate].
+    destruct (nth_error st (n_buf h)) as [b|] eqn:Eb; [|discriminate]. cbn [obind] in E.
+    destruct ((length new =? n_len h) && (n_start h + n_len h <=? length b)) eqn:Ec; [|discriminate].
     injection E as <-. apply andb_true_iff in Ec. destruct Ec as [E1 E2].
     apply Nat.eqb_eq in E1. apply Nat.leb_le in E2.
-    assert (Hk : n_buf A h < length st) by (apply nth_error_Some; congruence).
+    assert (Hk : n_buf h < length st) by (apply nth_error_Some; congruence).
     split; [apply update_length; assumption|]. split; [assumption|]. split; [|split].
     - intros k Hne. apply update_nth_other; assumption.
     - exists b. split; [reflexivity|]. apply update_nth_same. assumption.
     - unfold RaggedStore.n_read. rewrite g_read_update_same by auto. unfold n_view.
       rewrite !app_length, firstn_length, skipn_length.
-      replace (n_start A h + n_len A h <=? Nat.min (n_start A h) (length b) + (length new + (length b - (n_start A h + n_len A h))))
+      replace (n_start h + n_len h <=? Nat.min (n_start h) (length b) + (length new + (length b - (n_start h + n_len h))))
         with true by (symmetry; apply Nat.leb_le; lia).
       f_equal. f_equal. unfold tslice.
-      replace (n_start A h + n_len A h - n_start A h) with (length new) by lia.
+      replace (n_start h + n_len h - n_start h) with (length new) by lia.
       rewrite skipn_app, skipn_all2 by (rewrite firstn_length; lia). rewrite firstn_length. simpl.
-      replace (n_start A h - Nat.min (n_start A h) (length b)) with 0 by lia. simpl.
+      replace (n_start h - Nat.min (n_start h) (length b)) with 0 by lia. simpl.
       rewrite firstn_app, firstn_all, Nat.sub_diag. simpl. apply app_nil_r.
   Qed.
 
@@ -137,10 +137,10 @@ Section StoreProofs.
   Lemma n_fill_spec : forall (st st' : nstore) h j v, n_fill A is_na st h j v = Some st' ->
     length st' = length st
     /\ n_read st' h = (t <- n_read st h ;; mnt_fillna_col A is_na t j v)
-    /\ (forall h0, n_buf A h0 <> n_buf A h -> n_read st' h0 = n_read st h0)
-    /\ (exists b b', nth_error st (n_buf A h) = Some b /\ nth_error st' (n_buf A h) = Some b' /\
-                     firstn (n_start A h) b' = firstn (n_start A h) b /\
-                     skipn (n_start A h + n_len A h) b' = skipn (n_start A h + n_len A h) b).
+    /\ (forall h0, n_buf h0 <> n_buf h -> n_read st' h0 = n_read st h0)
+    /\ (exists b b', nth_error st (n_buf h) = Some b /\ nth_error st' (n_buf h) = Some b' /\
+                     firstn (n_start h) b' = firstn (n_start h) b /\
+                     skipn (n_start h + n_len h) b' = skipn (n_start h + n_len h) b).
   Proof.
     intros st st' h j v E. unfold n_fill in E.
     destruct (n_read st h) as [t|] eqn:Et; [|discriminate]. cbn [obind] in *.
@@ -150,7 +150,7 @@ Section StoreProofs.
     - rewrite Hrd. f_equal.
       (* the pure fill keeps sizes and offsets of what was read *)
       unfold RaggedStore.n_read, g_read in Et. rewrite Hb in Et. cbn [obind] in Et. unfold n_view in Et.
-      destruct (n_start A h + n_len A h <=? length b); [|discriminate]. injection Et as <-.
+      destruct (n_start h + n_len h <=? length b); [|discriminate]. injection Et as <-.
       unfold mnt_fillna_col in Er. cbn [nr nc offs vals] in Er.
       repeat match type of Er with
              | (x <- ?e ;; _) = Some _ => destruct e; [cbn [obind] in Er|discriminate]
@@ -158,15 +158,15 @@ Section StoreProofs.
       injection Er as <-. reflexivity.
     - intros h0 Hne. unfold RaggedStore.n_read, g_read. rewrite Hoth by assumption. reflexivity.
     - exists b. eexists. split; [exact Hb|]. split; [exact Hb'|].
-      assert (Hwin : n_start A h + n_len A h <= length b /\ length (vals r) = n_len A h).
+      assert (Hwin : n_start h + n_len h <= length b /\ length (vals r) = n_len h).
       { unfold n_write in E. rewrite Hb in E. cbn [obind] in E.
-        destruct ((length (vals r) =? n_len A h) && (n_start A h + n_len A h <=? length b)) eqn:Ec; [|discriminate].
+        destruct ((length (vals r) =? n_len h) && (n_start h + n_len h <=? length b)) eqn:Ec; [|discriminate].
         apply andb_true_iff in Ec. destruct Ec as [E1 E2]. apply Nat.eqb_eq in E1. apply Nat.leb_le in E2. lia. }
       destruct Hwin as [Hw1 Hw2]. split.
-      + rewrite firstn_app, firstn_firstn, firstn_length. replace (Nat.min (n_start A h) (n_start A h)) with (n_start A h) by lia.
-        replace (n_start A h - Nat.min (n_start A h) (length b)) with 0 by lia. simpl. apply app_nil_r.
+      + rewrite firstn_app, firstn_firstn, firstn_length. replace (Nat.min (n_start h) (n_start h)) with (n_start h) by lia.
+        replace (n_start h - Nat.min (n_start h) (length b)) with 0 by lia. simpl. apply app_nil_r.
       + rewrite skipn_app, skipn_all2 by (rewrite firstn_length; lia). rewrite firstn_length. simpl.
-        replace (n_start A h + n_len A h - Nat.min (n_start A h) (length b)) with (length (vals r)) by lia.
+        replace (n_start h + n_len h - Nat.min (n_start h) (length b)) with (length (vals r)) by lia.
         rewrite skipn_app, skipn_all, Nat.sub_diag. reflexivity.
   Qed.
 
@@ -174,11 +174,11 @@ Section StoreProofs.
      (in particular not the source), and a write to the source does not change the clone *)
   Lemma n_clone_no_shared_storage : forall (st st1 : nstore) h c, n_clone A st h = Some (st1, c) ->
     forall j v st2,
-      (n_fill A is_na st1 c j v = Some st2 -> forall h0, n_buf A h0 < length st -> n_read st2 h0 = n_read st h0)
+      (n_fill A is_na st1 c j v = Some st2 -> forall h0, n_buf h0 < length st -> n_read st2 h0 = n_read st h0)
       /\ (n_fill A is_na st1 h j v = Some st2 -> n_read st2 c = n_read st1 c).
   Proof.
     intros st st1 h c E j v st2. destruct (n_clone_spec st st1 h c E) as [Hb [[b Hst] [Hrd Hfr]]].
-    assert (Hh : n_buf A h < length st).
+    assert (Hh : n_buf h < length st).
     { unfold n_clone in E. destruct (n_read st h) as [t|] eqn:Et; [|discriminate].
       exact (g_read_valid _ _ _ _ _ _ _ _ Et). }
     split; intros Ef.
@@ -190,32 +190,147 @@ Section StoreProofs.
   (* cat allocates its result: every object that existed before reads the same afterwards
      (the arguments are not modified); torch_frame.cat of one element is that element *)
   Lemma n_cat_frame : forall (st st' : nstore) hs d tf r, n_cat A junk_o junk_v st hs d tf = Some (st', r) ->
-    (forall h0, n_buf A h0 < length st -> n_read st' h0 = n_read st h0)
+    (forall h0, n_buf h0 < length st -> n_read st' h0 = n_read st h0)
     /\ ((exists h, hs = [h] /\ tf = true /\ st' = st /\ r = h)
-        \/ (n_buf A r = length st /\
+        \/ (n_buf r = length st /\
             n_read st' r = (ts <- mapM (n_read st) hs ;;
                             if tf then x <- cat_tensor_data A junk_o junk_v (map TMnt ts) d ;; as_mnt A x
                             else mnt_cat A junk_o junk_v ts d))).
   Proof.
     intros st st' hs d tf r E. unfold n_cat in E.
     destruct (mapM (RaggedStore.n_read A st) hs) as [ts|] eqn:Ets; [|discriminate]. cbn [obind] in E.
-    assert (Hfresh : forall x, (x <- (if tf then y <- cat_tensor_data A junk_o junk_v (map TMnt ts) d ;; as_mnt A y
-                                     else mnt_cat A junk_o junk_v ts d) ;; Some (n_new A st x)) = Some (st', r) ->
-              (forall h0, n_buf A h0 < length st -> n_read st' h0 = n_read st h0) /\
-              n_buf A r = length st /\
-              n_read st' r = (if tf then y <- cat_tensor_data A junk_o junk_v (map TMnt ts) d ;; as_mnt A y
-                              else mnt_cat A junk_o junk_v ts d)).
-    { intros _ E'. destruct (if tf then _ else _) as [x|]; [|discriminate]. cbn [obind] in E'.
+    remember (if tf then x <- cat_tensor_data A junk_o junk_v (map TMnt ts) d ;; as_mnt A x
+              else mnt_cat A junk_o junk_v ts d) as pure eqn:Ep.
+    assert (Hfresh : (x <- pure ;; Some (n_new A st x)) = Some (st', r) ->
+              (forall h0, n_buf h0 < length st -> n_read st' h0 = n_read st h0) /\
+              n_buf r = length st /\ n_read st' r = pure).
+    { intros E'. destruct pure as [x|]; [|discriminate]. cbn [obind] in E'.
       pose proof (n_new_spec st x) as Hn. destruct (n_new A st x) as [s2 h2]. injection E' as <- <-.
       destruct Hn as [-> [Hb Hr]]. split; [|split]; auto. intros. apply n_read_alloc. assumption. }
     destruct hs as [|h [|h' hs']].
-    - destruct (Hfresh (MkMnt 0 0 [] []) E) as [H1 [H2 H3]]. split; [exact H1|]. right. split; [exact H2|].
-      rewrite H3. reflexivity.
+    - destruct (Hfresh E) as [H1 [H2 H3]]. split; [exact H1|]. right. split; [exact H2|]. rewrite H3, Ep. reflexivity.
     - destruct tf.
       + injection E as <- <-. split; [reflexivity|]. left. exists h. auto.
-      + destruct (Hfresh (MkMnt 0 0 [] []) E) as [H1 [H2 H3]]. split; [exact H1|]. right. split; [exact H2|].
-        rewrite H3, Ets. reflexivity.
-    - destruct (Hfresh (MkMnt 0 0 [] []) E) as [H1 [H2 H3]]. split; [exact H1|]. right. split; [exact H2|].
-      rewrite H3, Ets. destruct tf; reflexivity.
+      + destruct (Hfresh E) as [H1 [H2 H3]]. split; [exact H1|]. right. split; [exact H2|]. rewrite H3, Ep. reflexivity.
+    - destruct (Hfresh E) as [H1 [H2 H3]]. split; [exact H1|]. right. split; [exact H2|]. rewrite H3, Ep. reflexivity.
+  Qed.
+
+  (* ------------------------------------------------------------------ *)
+  (* MultiEmbeddingTensor *)
+  Notation estore := (list (list (list A))).
+  Notation e_read := (e_read A).
+
+  (* a 2-D values tensor: er rows, all of the declared width *)
+  Definition met_ok (t : met A) : Prop :=
+    length (t2rows (evals t)) = er t /\ Forall (fun row => length row = t2w (evals t)) (t2rows (evals t)).
+
+  Lemma e_read_ok : forall (st : estore) h t, e_read st h = Some t -> met_ok t.
+  Proof.
+    intros st h t E. unfold RaggedStore.e_read, g_read in E.
+    destruct (nth_error st (e_buf h)) as [b|]; [|discriminate]. cbn [obind] in E. unfold e_view in E.
+    destruct ((e_r0 h + e_nr h <=? length b) && _) eqn:Ec; [|discriminate]. injection E as <-.
+    apply andb_true_iff in Ec. destruct Ec as [E1 E2]. apply Nat.leb_le in E1.
+    unfold met_ok. cbn [evals t2rows t2w er]. split.
+    - rewrite map_length, tslice_length by assumption. lia.
+    - apply Forall_forall. intros x Hx. apply in_map_iff in Hx. destruct Hx as [row [<- Hrow]].
+      rewrite forallb_forall in E2. specialize (E2 row Hrow). apply Nat.leb_le in E2.
+      rewrite tslice_length by assumption. lia.
+  Qed.
+
+  Lemma e_new_spec : forall (st : estore) (t : met A), met_ok t ->
+    let '(st', h) := e_new A st t in
+    st' = st ++ [t2rows (evals t)] /\ e_buf h = length st /\ e_read st' h = Some t.
+  Proof.
+    intros st t [Hl Hw]. unfold e_new, g_alloc. split; [reflexivity|]. split; [reflexivity|].
+    unfold RaggedStore.e_read. rewrite g_read_fresh by reflexivity. unfold e_view.
+    cbn [e_r0 e_nr e_c0 e_w e_nc e_offs Nat.add]. rewrite <- Hl, Nat.leb_refl, tslice_all.
+    rewrite (proj2 (forallb_forall _ _)).
+    2: { intros row Hrow. apply Nat.leb_le. rewrite Forall_forall in Hw. rewrite (Hw row Hrow). lia. }
+    cbn [andb]. f_equal.
+    replace (map (fun row => tslice row 0 (t2w (evals t))) (t2rows (evals t))) with (t2rows (evals t)).
+    - rewrite Hl. destruct t as [r c [rows w] o]. reflexivity.
+    - rewrite <- (map_id (t2rows (evals t))) at 1. apply map_ext_in. intros row Hrow.
+      rewrite Forall_forall in Hw. rewrite <- (Hw row Hrow). symmetry. apply tslice_all.
+  Qed.
+
+  Lemma e_read_alloc : forall (st : estore) b h, e_buf h < length st -> e_read (st ++ [b]) h = e_read st h.
+  Proof. intros. apply g_read_alloc. assumption. Qed.
+
+  Lemma met_clone_ok : forall t r, met_ok t -> met_clone A t = Some r -> met_ok r.
+  Proof.
+    intros t r H E. unfold met_clone, mk_met in E. destruct (eoffs t) as [|o0 os]; [discriminate|].
+    destruct ((o0 =? 0) && _); [|discriminate]. injection E as <-. exact H.
+  Qed.
+
+  Lemma e_clone_spec : forall (st st' : estore) h c, e_clone A st h = Some (st', c) ->
+    e_buf c = length st
+    /\ (exists b, st' = st ++ [b])
+    /\ e_read st' c = (t <- e_read st h ;; met_clone A t)
+    /\ (forall h0, e_buf h0 < length st -> e_read st' h0 = e_read st h0).
+  Proof.
+    intros st st' h c E. unfold e_clone in E.
+    destruct (e_read st h) as [t|] eqn:Et; [|discriminate]. cbn [obind] in *.
+    destruct (met_clone A t) as [r|] eqn:Er; [|discriminate]. cbn [obind] in E.
+    pose proof (e_new_spec st r (met_clone_ok t r (e_read_ok st h t Et) Er)) as Hn.
+    destruct (e_new A st r) as [s2 h2]. injection E as <- <-.
+    destruct Hn as [-> [Hb Hr]]. repeat split; auto.
+    - eexists; reflexivity.
+    - intros. apply e_read_alloc. assumption.
+  Qed.
+
+  (* fillna_col writes one storage only *)
+  Lemma e_fill_frame : forall (st st' : estore) h j v, e_fill A is_na st h j v = Some st' ->
+    length st' = length st /\ e_buf h < length st
+    /\ (forall k, k <> e_buf h -> nth_error st' k = nth_error st k)
+    /\ (forall h0, e_buf h0 <> e_buf h -> e_read st' h0 = e_read st h0).
+  Proof.
+    intros st st' h j v E. unfold e_fill in E.
+    destruct (e_read st h) as [t|]; [|discriminate]. cbn [obind] in E.
+    destruct (met_fillna_col A is_na t j v) as [r|]; [|discriminate]. cbn [obind] in E.
+    unfold e_write in E. destruct (nth_error st (e_buf h)) as [b|] eqn:Eb; [|discriminate]. cbn [obind] in E.
+    match type of E with (if ?c then _ else _) = _ => destruct c; [|discriminate] end.
+    injection E as <-.
+    assert (Hk : e_buf h < length st) by (apply nth_error_Some; congruence).
+    split; [apply update_length; assumption|]. split; [assumption|]. split.
+    - intros k Hne. apply update_nth_other; assumption.
+    - intros h0 Hne. unfold RaggedStore.e_read. apply g_read_update_other; assumption.
+  Qed.
+
+  Lemma e_clone_no_shared_storage : forall (st st1 : estore) h c, e_clone A st h = Some (st1, c) ->
+    forall j v st2,
+      (e_fill A is_na st1 c j v = Some st2 -> forall h0, e_buf h0 < length st -> e_read st2 h0 = e_read st h0)
+      /\ (e_fill A is_na st1 h j v = Some st2 -> e_read st2 c = e_read st1 c).
+  Proof.
+    intros st st1 h c E j v st2. destruct (e_clone_spec st st1 h c E) as [Hb [[b Hst] [Hrd Hfr]]].
+    assert (Hh : e_buf h < length st).
+    { unfold e_clone in E. destruct (e_read st h) as [t|] eqn:Et; [|discriminate].
+      exact (g_read_valid _ _ _ _ _ _ _ _ Et). }
+    split; intros Ef.
+    - intros h0 H0. destruct (e_fill_frame st1 st2 c j v Ef) as [_ [_ [_ Hoth]]].
+      rewrite Hoth by lia. apply Hfr. assumption.
+    - destruct (e_fill_frame st1 st2 h j v Ef) as [_ [_ [_ Hoth]]]. apply Hoth. lia.
+  Qed.
+
+  (* cat: every object that existed before reads the same; a one-element cat is that element *)
+  Lemma e_cat_frame : forall (st st' : estore) hs d tf r, e_cat A junk_o junk_v st hs d tf = Some (st', r) ->
+    (forall h0, e_buf h0 < length st -> e_read st' h0 = e_read st h0)
+    /\ ((exists h, hs = [h] /\ st' = st /\ r = h) \/ (exists b, st' = st ++ [b] /\ e_buf r = length st)).
+  Proof.
+    intros st st' hs d tf r E. unfold e_cat in E.
+    destruct (mapM (RaggedStore.e_read A st) hs) as [ts|]; [|discriminate]. cbn [obind] in E.
+    assert (Hfresh : forall pure : option (met A), (x <- pure ;; Some (e_new A st x)) = Some (st', r) ->
+              (forall h0, e_buf h0 < length st -> e_read st' h0 = e_read st h0) /\
+              (exists b, st' = st ++ [b] /\ e_buf r = length st)).
+    { intros pure E'. destruct pure as [x|]; [|discriminate]. cbn [obind] in E'.
+      unfold e_new, g_alloc in E'. injection E' as <- <-. split.
+      - intros. apply e_read_alloc. assumption.
+      - eexists. split; reflexivity. }
+    destruct hs as [|h [|h' hs']].
+    - destruct (Hfresh _ E) as [H1 H2]. split; [exact H1|]. right. exact H2.
+    - assert (Es : st' = st /\ r = h).
+      { destruct tf; [injection E as <- <-; auto|].
+        destruct (met_cat A ts d); [|discriminate]. cbn [obind] in E. injection E as <- <-. auto. }
+      destruct Es as [-> ->]. split; [reflexivity|]. left. exists h. auto.
+    - destruct (Hfresh _ E) as [H1 H2]. split; [exact H1|]. right. exact H2.
   Qed.
 End StoreProofs.
